@@ -14,6 +14,10 @@
 #include "K_get_det_pos_pair_for_bin.c"
 #include "K_get_num_det_pos_pairs_for_bin.c"
 #include "K_get_all_det_pos_pairs_for_bin.c"
+#include "K_cti_segments.c"
+#include "K_rda_m_offset.c"
+#include "K_rda_ax_offset.c"
+#include "K_rda_rpr.c"
 #include "K_get_num_axial_poss_per_ring_inc.c"
 #include "K_get_segment_num_for_ring_difference.c"
 #include "K_get_segment_axial_pos_num_for_ring_pair.c"
@@ -202,3 +206,38 @@ static void ghosts_dps(void)
 }
 void h_K_get_num_det_pos_pairs_for_bin(void) { struct PDI1* s; struct Bin* b; ghosts_dps(); K_get_num_det_pos_pairs_for_bin(s, b, nondet_bool()); }
 void h_K_get_all_det_pos_pairs_for_bin(void) { struct PDI1* s; struct Bin* b; ghosts_dps(); K_get_all_det_pos_pairs_for_bin(s, b, nondet_bool()); }
+
+/* ---------- ProjDataInfoCTI: span -> segments ---------- */
+void h_K_cti_segments(void)
+{
+  g_s = nondet_int(); g_s2 = nondet_int(); g_v = nondet_int(); g_tp = nondet_int(); g_out_ranges = 0; g_out_lo = nondet_int(); g_out_hi = nondet_int();
+  g_o1.w_min_ring_difference = 0; g_o1.w_max_ring_difference = 0; g_o1.w_num_axial_pos_per_segment = 0;
+  g_o2.w_min_ring_difference = 0; g_o2.w_max_ring_difference = 0; g_o2.w_num_axial_pos_per_segment = 0;
+  K_cti_segments(nondet_int(), nondet_int(), nondet_int());
+}
+
+/* ---------- the float block of initialise_ring_diff_arrays: composition of the three real statements ---------- */
+#ifndef RPR_MAXR
+#define RPR_MAXR 128
+#define RPR_MAXAX 256
+#endif
+void h_lemma_rpr(void)
+{
+  int min_ax = nondet_int(), max_ax = nondet_int(), inc = nondet_int(), num_rings = nondet_int(), ax = nondet_int();
+#ifdef C01_SPACING
+  const float ring_spacing = C01_SPACING;
+#else
+  float ring_spacing = nondet_float();
+#endif
+  __CPROVER_assume(inc >= 1 && inc <= 2 && num_rings >= 1 && num_rings <= RPR_MAXR && min_ax >= 0 && min_ax <= max_ax && max_ax < RPR_MAXAX && ax >= min_ax && ax <= max_ax);
+  __CPROVER_assume(ring_spacing >= 0.1f && ring_spacing <= 100.f);
+  __CPROVER_assume((max_ax + min_ax) % inc == 0); /* the code's own integrality test (error() otherwise for cylindrical scanners) */
+  const float m = K_rda_m_offset(min_ax, max_ax, ring_spacing, inc);
+  const int off = K_rda_ax_offset(num_rings, m, ring_spacing);
+  const int rpr = K_rda_rpr(ax, inc, m, ring_spacing, num_rings);
+  __CPROVER_assert(off == num_rings - 1 - (max_ax + min_ax) / inc, "ax_pos_num_offset is the exact integer num_rings - 1 - (max_ax + min_ax) / inc");
+  __CPROVER_assert(rpr == 2 * ax / inc + off, "ring1_plus_ring2 of an axial position is 2*ax/inc + ax_pos_num_offset (reader contract SPEC_RPR)");
+#ifdef LEMMA_CANARY
+  __CPROVER_assert(0, "vacuity canary");
+#endif
+}
